@@ -1,6 +1,536 @@
-//! driver stub (filled in by its check)
+//! C18: generated and password-derived keys are always usable and deterministic.
+//! `keys run <quick|thorough> <trace.ndjson>` records, on the real code,
+//!   codec      to_base62 / from_base62 on every byte string of length <= 2 and random strings up to 64 bytes
+//!   gen/print/configure/use/again/done   the life of one key pair (Keys.tla actions), with all data:
+//!              seeds with every pattern of 0..4 leading zero bytes (and 0..2 leading zero bytes of the public key,
+//!              found by search), password-derived pairs whose private or public key starts with a zero byte
+//!              (found by a password search)
+//!   lifecycle  the same as one compact event per (key, role): random seeds, genuine generate_keypair(None) output,
+//!              dictionary passwords
+//!   password   same password -> same pair / peers, other password -> no peers
+//! "Use" is a real handshake (4 init messages + one data message) between the node configured from the printed
+//! text and a partner that holds the counterpart.
+use super::util::*;
+use crate::crypto::{Algorithms, Config as CryptoConfig, Crypto, Ed25519PublicKey, MessageResult, PeerCrypto, VERIF_SPEEDS};
+use crate::messages::NodeInfo;
+use crate::types::NodeId;
+use crate::util::{from_base62, to_base62, MsgBuffer};
+use rand::{Rng, RngCore};
+use ring::signature::{Ed25519KeyPair, KeyPair};
 use serde_json::{json, Value};
+use smallvec::smallvec;
+use std::sync::Arc;
 
-pub fn run(_args: &[String]) -> Value {
-    json!({"error": "not implemented"})
+type Peer = PeerCrypto<NodeInfo>;
+
+const ROLES: [&str; 3] = ["priv", "privpub", "trusted"];
+
+fn chars(s: &str) -> Vec<String> {
+    s.chars().map(|c| c.to_string()).collect()
+}
+
+fn node_id(n: u8) -> NodeId {
+    let mut id = [0u8; 16];
+    id[0] = n;
+    id[15] = 0xA5;
+    id
+}
+
+fn payload(n: u8) -> NodeInfo {
+    NodeInfo { node_id: node_id(n), peers: smallvec![], claims: smallvec![], peer_timeout: None, addrs: smallvec![] }
+}
+
+fn algorithms() -> Algorithms {
+    Algorithms {
+        algorithm_speeds: smallvec![
+            (&ring::aead::AES_128_GCM, 600.0),
+            (&ring::aead::AES_256_GCM, 500.0),
+            (&ring::aead::CHACHA20_POLY1305, 400.0)
+        ],
+        allow_unencrypted: false,
+    }
+}
+
+fn leading_zeros(b: &[u8]) -> usize {
+    b.iter().take_while(|x| **x == 0).count()
+}
+
+/// Partner built from raw key material (no text parsing involved).
+fn raw_peer(n: u8, seed: &[u8; 32], trusted: &[u8; 32]) -> Peer {
+    let kp = Ed25519KeyPair::from_seed_unchecked(seed).expect("seed");
+    let t: Vec<Ed25519PublicKey> = vec![*trusted];
+    PeerCrypto::new(node_id(n), payload(n), Arc::new(kp), t.into_boxed_slice().into(), algorithms())
+}
+
+fn public_of(seed: &[u8; 32]) -> [u8; 32] {
+    let kp = Ed25519KeyPair::from_seed_unchecked(seed).expect("seed");
+    let mut p = [0u8; 32];
+    p.copy_from_slice(kp.public_key().as_ref());
+    p
+}
+
+/// Crypto::new under panic capture: Ok(instance) / Err((kind, message)).
+fn configure(n: u8, cfg: &CryptoConfig) -> Result<Crypto, (&'static str, String)> {
+    match guarded(|| Crypto::new(node_id(n), cfg)) {
+        Ok(Ok(c)) => Ok(c),
+        Ok(Err(e)) => Err(("err", format!("{}", e))),
+        Err(p) => Err(("panic", p)),
+    }
+}
+
+/// The 4-message handshake of crypto/common.rs test `normal`, then one data message each way.
+fn handshake(a: &mut Peer, b: &mut Peer) -> bool {
+    let r = guarded(|| -> Result<bool, crate::error::Error> {
+        let mut msg = MsgBuffer::new(16);
+        a.initialize(&mut msg)?;
+        if msg.is_empty() {
+            return Ok(false);
+        }
+        if b.handle_message(&mut msg)? != MessageResult::Reply {
+            return Ok(false);
+        }
+        match a.handle_message(&mut msg)? {
+            MessageResult::InitializedWithReply(_) => (),
+            _ => return Ok(false),
+        }
+        match b.handle_message(&mut msg)? {
+            MessageResult::InitializedWithReply(_) => (),
+            _ => return Ok(false),
+        }
+        if a.handle_message(&mut msg)? != MessageResult::None {
+            return Ok(false);
+        }
+        for dir in 0..2 {
+            let mut buf = MsgBuffer::new(64);
+            buf.clone_from(&[1, 2, 3, 4, 5, 6, 7, 8, 9, 10]);
+            let (s, r): (&mut Peer, &mut Peer) = if dir == 0 { (&mut *a, &mut *b) } else { (&mut *b, &mut *a) };
+            s.send_message(1, &mut buf)?;
+            if r.handle_message(&mut buf)? != MessageResult::Message(1) {
+                return Ok(false);
+            }
+            if buf.message() != [1, 2, 3, 4, 5, 6, 7, 8, 9, 10] {
+                return Ok(false);
+            }
+        }
+        Ok(true)
+    });
+    matches!(r, Ok(Ok(true)))
+}
+
+/// A reference identity whose seed and public key have no leading zero byte (so that its own text form is not the
+/// subject of the experiment).
+struct RefKey {
+    seed: [u8; 32],
+    public: [u8; 32],
+}
+
+fn ref_key(rng: &mut impl Rng) -> RefKey {
+    loop {
+        let mut seed = [0u8; 32];
+        rng.fill_bytes(&mut seed);
+        let public = public_of(&seed);
+        if seed[0] != 0 && public[0] != 0 {
+            return RefKey { seed, public };
+        }
+    }
+}
+
+/// Who the partner of the node under test is.
+enum Partner<'a> {
+    /// raw key material: the generated seed / public key are known as bytes
+    Raw { seed: &'a [u8; 32], public: &'a [u8; 32] },
+    /// a node configured with the password the pair was derived from
+    Password(&'a str),
+    /// only the printed text exists (genuine generate_keypair(None) output): a second node configured from the text
+    TextOnly,
+}
+
+struct RoleOutcome {
+    res: &'static str,
+    err: String,
+    hs: bool,
+    pfp: &'static str,
+}
+
+/// Configure the printed pair in `role`, then use it.
+fn run_role(role: &str, priv_text: &str, pub_text: &str, partner: &Partner, r: &RefKey) -> RoleOutcome {
+    let ref_pub_text = to_base62(&r.public);
+    let ref_priv_text = to_base62(&r.seed);
+    let mut pfp = "na";
+    // node under test
+    let cfg = match role {
+        "priv" => {
+            pfp = match guarded(|| Crypto::public_key_from_private_key(priv_text)) {
+                Ok(Ok(t)) => {
+                    if t == pub_text {
+                        "ok"
+                    } else {
+                        "mismatch"
+                    }
+                }
+                Ok(Err(_)) => "err",
+                Err(_) => "panic",
+            };
+            CryptoConfig {
+                private_key: Some(priv_text.to_string()),
+                trusted_keys: match partner {
+                    Partner::Raw { .. } => vec![ref_pub_text.clone()],
+                    _ => vec![],
+                },
+                ..Default::default()
+            }
+        }
+        "privpub" => CryptoConfig {
+            private_key: Some(priv_text.to_string()),
+            public_key: Some(pub_text.to_string()),
+            trusted_keys: match partner {
+                Partner::Raw { .. } => vec![ref_pub_text.clone()],
+                _ => vec![],
+            },
+            ..Default::default()
+        },
+        _ => CryptoConfig {
+            private_key: Some(ref_priv_text.clone()),
+            trusted_keys: vec![pub_text.to_string()],
+            ..Default::default()
+        },
+    };
+    let under_test = match configure(1, &cfg) {
+        Ok(c) => c,
+        Err((kind, msg)) => return RoleOutcome { res: kind, err: msg, hs: false, pfp },
+    };
+    let mut a = under_test.peer_instance(payload(1));
+    // partner holding the counterpart
+    let mut b: Peer = match (partner, role) {
+        (Partner::Raw { public, .. }, "priv") | (Partner::Raw { public, .. }, "privpub") => raw_peer(2, &r.seed, public),
+        (Partner::Raw { seed, .. }, _) => raw_peer(2, seed, &r.public),
+        (Partner::Password(pw), "priv") | (Partner::Password(pw), "privpub") => {
+            // default trust of both: own public key = the derived one
+            match configure(2, &CryptoConfig { password: Some(pw.to_string()), ..Default::default() }) {
+                Ok(c) => c.peer_instance(payload(2)),
+                Err((_, msg)) => return RoleOutcome { res: "ok", err: format!("partner: {}", msg), hs: false, pfp },
+            }
+        }
+        (Partner::Password(pw), _) => {
+            match configure(2, &CryptoConfig { password: Some(pw.to_string()), trusted_keys: vec![ref_pub_text.clone()], ..Default::default() }) {
+                Ok(c) => c.peer_instance(payload(2)),
+                Err((_, msg)) => return RoleOutcome { res: "ok", err: format!("partner: {}", msg), hs: false, pfp },
+            }
+        }
+        (Partner::TextOnly, "priv") | (Partner::TextOnly, "privpub") => {
+            // a second node that is given the same private key text trusts (by default) the same public key
+            match configure(2, &CryptoConfig { private_key: Some(priv_text.to_string()), ..Default::default() }) {
+                Ok(c) => c.peer_instance(payload(2)),
+                Err((_, msg)) => return RoleOutcome { res: "ok", err: format!("partner: {}", msg), hs: false, pfp },
+            }
+        }
+        (Partner::TextOnly, _) => {
+            match configure(2, &CryptoConfig { private_key: Some(priv_text.to_string()), trusted_keys: vec![ref_pub_text.clone()], ..Default::default() }) {
+                Ok(c) => c.peer_instance(payload(2)),
+                // the counterpart of the trusted key exists as text only; if that text is refused (reported in role
+                // "priv" of the same pair) this role cannot be exercised
+                Err((_, msg)) => return RoleOutcome { res: "skip", err: format!("partner: {}", msg), hs: false, pfp },
+            }
+        }
+    };
+    // alternate the initiating side
+    let hs = if priv_text.len() % 2 == 0 { handshake(&mut a, &mut b) } else { handshake(&mut b, &mut a) };
+    RoleOutcome { res: "ok", err: String::new(), hs, pfp }
+}
+
+/// Seed with exactly `kz` leading zero bytes whose public key has exactly `pz` leading zero bytes.
+fn find_seed(rng: &mut impl Rng, kz: usize, pz: usize) -> ([u8; 32], [u8; 32], u64) {
+    let mut tries = 0u64;
+    loop {
+        tries += 1;
+        let mut seed = [0u8; 32];
+        rng.fill_bytes(&mut seed[kz..]);
+        if seed[kz] == 0 {
+            seed[kz] = 1 + (tries % 255) as u8;
+        }
+        let public = public_of(&seed);
+        if leading_zeros(&public) == pz {
+            return (seed, public, tries);
+        }
+    }
+}
+
+fn compact_event(src: &str, kz: usize, pz: usize, role: &str, o: &RoleOutcome, priv_text: &str) -> Value {
+    json!({"op":"lifecycle","src":src,"seed_zeros":kz,"pub_zeros":pz,"role":role,"res":o.res,"hs":o.hs,"pfp":o.pfp,
+        "priv": if o.res == "ok" && o.hs && o.pfp != "err" && o.pfp != "mismatch" { String::new() } else { priv_text.to_string() }})
+}
+
+struct Ctx {
+    t: Trace,
+    keys: u64,
+    lifecycles: u64,
+    handshakes: u64,
+    rejected: u64,
+    skipped: u64,
+}
+
+impl Ctx {
+    /// One key pair through all roles as separate events with all data.
+    fn full_key(&mut self, src: &str, seed: Option<&[u8; 32]>, public: Option<&[u8; 32]>, kz: usize, pz: usize, priv_text: &str, pub_text: &str, partner: &Partner, r: &RefKey) {
+        self.keys += 1;
+        let full = seed.is_some();
+        self.t.ev(json!({"op":"gen","src":src,"seed_zeros":kz,"pub_zeros":pz,"full":full,
+            "seed": seed.map(|s| s.to_vec()).unwrap_or_default(), "pub": public.map(|s| s.to_vec()).unwrap_or_default()}));
+        self.t.ev(json!({"op":"print","full":full,"priv_text":chars(priv_text),"pub_text":chars(pub_text)}));
+        for (i, role) in ROLES.iter().enumerate() {
+            let o = run_role(role, priv_text, pub_text, partner, r);
+            self.lifecycles += 1;
+            self.handshakes += o.hs as u64;
+            self.rejected += (o.res != "ok") as u64;
+            self.t.ev(json!({"op":"configure","role":role,"res":o.res,"err":o.err}));
+            self.t.ev(json!({"op":"use","hs":o.hs,"pfp":o.pfp}));
+            self.t.ev(json!({"op": if i + 1 < ROLES.len() { "again" } else { "done" }}));
+        }
+    }
+
+    /// The same as one compact event per role.
+    fn compact_key(&mut self, src: &str, kz: usize, pz: usize, priv_text: &str, pub_text: &str, partner: &Partner, r: &RefKey) {
+        self.keys += 1;
+        for role in ROLES.iter() {
+            let o = run_role(role, priv_text, pub_text, partner, r);
+            if o.res == "skip" {
+                self.skipped += 1;
+                continue;
+            }
+            self.lifecycles += 1;
+            self.handshakes += o.hs as u64;
+            self.rejected += (o.res != "ok") as u64;
+            self.t.ev(compact_event(src, kz, pz, role, &o, priv_text));
+        }
+    }
+}
+
+fn dictionary() -> Vec<String> {
+    let mut d: Vec<String> = vec![
+        "", "a", "test", "password", "Password", "password ", " password", "pass word", "correct horse battery staple", "0", "00", "\u{0}",
+        "\n", "\t", "pässwörd", "пароль", "密码", "パスワード", "🔑", "🔑🔑", "e\u{301}", "\u{e9}", "ＡＢＣ", "null", "None", "~!@#$%^&*()_+",
+        "\"quoted\"", "'single'", "\\backslash", "a\u{0}b",
+    ]
+    .into_iter()
+    .map(|s| s.to_string())
+    .collect();
+    d.push("x".repeat(1024));
+    d.push("é".repeat(512));
+    d.push((0..1024).map(|i| char::from(b'a' + (i % 26) as u8)).collect());
+    d.push("x".repeat(1023));
+    d.push("x".repeat(64));
+    d.push("x".repeat(65));
+    d
+}
+
+pub fn run(args: &[String]) -> Value {
+    let a = |i: usize| args.get(i).map(|s| s.as_str()).unwrap_or("");
+    let quick = a(1) != "thorough";
+    match a(0) {
+        "codec" => run_codec(quick, a(2)),
+        "life" => run_life(quick, a(2)),
+        _ => json!({"error": "usage: keys <codec|life> <quick|thorough> <trace.ndjson>"}),
+    }
+}
+
+fn run_codec(quick: bool, out: &str) -> Value {
+    let mut t = Trace::create(out);
+    let mut rng = rng(180);
+    let mut codec = 0u64;
+    let mut lossy = 0u64;
+    let mut codec_ev = |t: &mut Trace, bytes: &[u8]| {
+        let text = guarded(|| to_base62(bytes));
+        match text {
+            Ok(text) => match guarded(|| from_base62(&text)) {
+                Ok(Ok(back)) => {
+                    lossy += (back != bytes) as u64;
+                    t.ev(json!({"op":"codec","bytes":bytes,"text":chars(&text),"back":back,"res":"ok"}))
+                }
+                Ok(Err(ch)) => t.ev(json!({"op":"codec","bytes":bytes,"text":chars(&text),"back":[],"res":"err","why":ch.to_string()})),
+                Err(p) => t.ev(json!({"op":"codec","bytes":bytes,"text":chars(&text),"back":[],"res":"panic","why":p})),
+            },
+            Err(p) => t.ev(json!({"op":"codec","bytes":bytes,"text":[],"back":[],"res":"panic","why":p})),
+        }
+    };
+    codec_ev(&mut t, &[]);
+    codec += 1;
+    for x in 0..=255u8 {
+        codec_ev(&mut t, &[x]);
+        codec += 1;
+    }
+    for x in 0..=255u8 {
+        for y in 0..=255u8 {
+            codec_ev(&mut t, &[x, y]);
+            codec += 1;
+        }
+    }
+    let nlong = if quick { 150 } else { 2000 };
+    for i in 0..nlong {
+        let len = if i < 62 { 3 + i } else { rng.gen_range(3..=64) };
+        let mut b = vec![0u8; len];
+        rng.fill_bytes(&mut b);
+        // leading zero bytes, all-ones, single bits
+        match i % 6 {
+            1 => b[0] = 0,
+            2 => {
+                let z = rng.gen_range(1..=len.min(5));
+                for x in b.iter_mut().take(z) {
+                    *x = 0
+                }
+            }
+            3 if i % 12 == 3 => b.iter_mut().for_each(|x| *x = 0xff),
+            4 if i % 24 == 4 => {
+                b.iter_mut().for_each(|x| *x = 0);
+                let l = b.len();
+                b[l - 1] = 1;
+            }
+            _ => (),
+        }
+        codec_ev(&mut t, &b);
+        codec += 1;
+    }
+    let events = t.finish();
+    json!({"runs": codec, "steps": codec, "events": events, "codec": codec, "decoded_shorter_than_input": lossy})
+}
+
+fn run_life(quick: bool, out: &str) -> Value {
+    VERIF_SPEEDS.with(|s| *s.borrow_mut() = Some([600.0, 500.0, 400.0]));
+    let mut c = Ctx { t: Trace::create(out), keys: 0, lifecycles: 0, handshakes: 0, rejected: 0, skipped: 0 };
+    let mut rng = rng(18);
+    let r = ref_key(&mut rng);
+    let t0 = std::time::Instant::now();
+
+    // ---- (B) every pattern of leading zero bytes, all data in the trace
+    let max_pz_all = 1usize;
+    let samples = if quick { 2 } else { 4 };
+    let mut search_tries = 0u64;
+    for kz in 0..=4usize {
+        for pz in 0..=2usize {
+            if pz > max_pz_all && quick && kz != 0 {
+                continue;
+            }
+            let n = if pz == 2 { 1 } else { samples };
+            for _ in 0..n {
+                let (seed, public, tries) = find_seed(&mut rng, kz, pz);
+                search_tries += tries;
+                let (pt, qt) = (to_base62(&seed), to_base62(&public));
+                c.full_key("seed", Some(&seed), Some(&public), kz, pz, &pt, &qt, &Partner::Raw { seed: &seed, public: &public }, &r);
+            }
+        }
+    }
+    // all-zero seed and 0x00..01 (extreme values of the number)
+    for last in [0u8, 1u8] {
+        let mut seed = [0u8; 32];
+        seed[31] = last;
+        let public = public_of(&seed);
+        let (pt, qt) = (to_base62(&seed), to_base62(&public));
+        c.full_key("seed", Some(&seed), Some(&public), leading_zeros(&seed), leading_zeros(&public), &pt, &qt, &Partner::Raw { seed: &seed, public: &public }, &r);
+    }
+
+    eprintln!("[keys] B done {:?}", t0.elapsed());
+    // ---- (B2) genuine password-derived pairs with a leading zero byte (password search); classes read off the text
+    let budget = if quick { 1500 } else { 12000 };
+    let want = if quick { 2 } else { 8 };
+    let (mut found_priv, mut found_pub, mut derivations) = (0, 0, 0u64);
+    let tag: u32 = rng.gen();
+    for i in 0..budget {
+        if found_priv >= want && found_pub >= want {
+            break;
+        }
+        let pw = format!("search-{:08x}-{}", tag, i);
+        let (pt, qt) = Crypto::generate_keypair(Some(&pw));
+        derivations += 1;
+        let kz = 32usize.saturating_sub(from_base62(&pt).map(|v| v.len()).unwrap_or(32));
+        let pz = 32usize.saturating_sub(from_base62(&qt).map(|v| v.len()).unwrap_or(32));
+        if (kz > 0 && found_priv < want) || (pz > 0 && found_pub < want) {
+            found_priv += (kz > 0) as usize;
+            found_pub += (pz > 0) as usize;
+            c.full_key("password", None, None, kz, pz, &pt, &qt, &Partner::Password(&pw), &r);
+        }
+    }
+
+    eprintln!("[keys] B2 done {:?}", t0.elapsed());
+    // ---- (C) compact: random seeds, genuine generate_keypair(None), dictionary passwords
+    let nrand: usize = if quick { 2500 } else { 100000 };
+    let nthreads = 8usize;
+    let (rseed, rpub) = (r.seed, r.public);
+    let handles: Vec<_> = (0..nthreads)
+        .map(|ti| {
+            std::thread::spawn(move || {
+                VERIF_SPEEDS.with(|s| *s.borrow_mut() = Some([600.0, 500.0, 400.0]));
+                let mut rng = super::util::rng(1800 + ti as u64);
+                let r = RefKey { seed: rseed, public: rpub };
+                let mut evs: Vec<Value> = vec![];
+                let (mut hs, mut rej) = (0u64, 0u64);
+                let n = nrand / nthreads + if ti < nrand % nthreads { 1 } else { 0 };
+                for _ in 0..n {
+                    let mut seed = [0u8; 32];
+                    rng.fill_bytes(&mut seed);
+                    let public = public_of(&seed);
+                    let (pt, qt) = (to_base62(&seed), to_base62(&public));
+                    for role in ROLES.iter() {
+                        let o = run_role(role, &pt, &qt, &Partner::Raw { seed: &seed, public: &public }, &r);
+                        hs += o.hs as u64;
+                        rej += (o.res != "ok") as u64;
+                        evs.push(compact_event("random", leading_zeros(&seed), leading_zeros(&public), role, &o, &pt));
+                    }
+                }
+                (evs, n as u64, hs, rej)
+            })
+        })
+        .collect();
+    for h in handles {
+        let (evs, n, hs, rej) = h.join().expect("worker thread");
+        c.keys += n;
+        c.lifecycles += evs.len() as u64;
+        c.handshakes += hs;
+        c.rejected += rej;
+        for e in evs {
+            c.t.ev(e);
+        }
+    }
+    eprintln!("[keys] C random done {:?}", t0.elapsed());
+    let ngen = if quick { 400 } else { 4000 };
+    for _ in 0..ngen {
+        let (pt, qt) = Crypto::generate_keypair(None);
+        let kz = 32usize.saturating_sub(from_base62(&pt).map(|v| v.len()).unwrap_or(32));
+        let pz = 32usize.saturating_sub(from_base62(&qt).map(|v| v.len()).unwrap_or(32));
+        c.compact_key("genkey", kz, pz, &pt, &qt, &Partner::TextOnly, &r);
+    }
+    let dict = dictionary();
+    for pw in &dict {
+        let (pt, qt) = Crypto::generate_keypair(Some(pw));
+        let kz = 32usize.saturating_sub(from_base62(&pt).map(|v| v.len()).unwrap_or(32));
+        let pz = 32usize.saturating_sub(from_base62(&qt).map(|v| v.len()).unwrap_or(32));
+        c.compact_key("password", kz, pz, &pt, &qt, &Partner::Password(pw), &r);
+    }
+
+    eprintln!("[keys] C done {:?}", t0.elapsed());
+    // ---- (D) passwords: derived twice, two node instances, another password
+    let mut pw_events = 0u64;
+    for (i, pw) in dict.iter().enumerate() {
+        let j = (i + 1 + (i % 3)) % dict.len();
+        let other = &dict[j];
+        let k1 = guarded(|| Crypto::generate_keypair(Some(pw)));
+        let k2 = guarded(|| Crypto::generate_keypair(Some(pw)));
+        let same_twice = matches!((&k1, &k2), (Ok(a), Ok(b)) if a == b);
+        let mk = |n: u8, p: &str| configure(n, &CryptoConfig { password: Some(p.to_string()), ..Default::default() });
+        let (n1, n2, n3) = (mk(1, pw), mk(2, pw), mk(3, other));
+        let res = if n1.is_ok() && n2.is_ok() && n3.is_ok() { "ok" } else { "err" };
+        let (mut peers, mut other_peers, mut other_peers_rev) = (false, false, false);
+        if let (Ok(n1), Ok(n2), Ok(n3)) = (&n1, &n2, &n3) {
+            peers = handshake(&mut n1.peer_instance(payload(1)), &mut n2.peer_instance(payload(2)))
+                && handshake(&mut n2.peer_instance(payload(2)), &mut n1.peer_instance(payload(1)));
+            other_peers = handshake(&mut n1.peer_instance(payload(1)), &mut n3.peer_instance(payload(3)));
+            other_peers_rev = handshake(&mut n3.peer_instance(payload(3)), &mut n1.peer_instance(payload(1)));
+        }
+        c.t.ev(json!({"op":"password","pw_id":i,"other_id":j,"pw_len":pw.len(),"res":res,"same_twice":same_twice,"peers":peers,
+            "other_pw_peers": other_peers || other_peers_rev}));
+        pw_events += 1;
+    }
+    let (keys, lifecycles, handshakes, rejected, skipped) = (c.keys, c.lifecycles, c.handshakes, c.rejected, c.skipped);
+    let events = c.t.finish();
+    json!({"runs": keys, "steps": lifecycles + pw_events, "events": events, "keys": keys, "lifecycles": lifecycles,
+           "handshakes_ok": handshakes, "configure_rejected": rejected, "roles_skipped_partner_unconfigurable": skipped, "passwords": pw_events, "password_search_derivations": derivations,
+           "seed_search_tries": search_tries})
 }
